@@ -934,15 +934,11 @@ theorem encoding_is_valid (v : Value) (hw : WF v) (e : Bytes) (he : encode v = s
 theorem every_variant_accepted (v : Value) (hw : WF v) (hn : nest v ≤ MAX_NESTING_DEPTH) (ch : Ch) (e tail : Bytes)
     (he : sEnc ch v = some e) : decode (e ++ tail) = .ok (v, tail) := by
   have hc := sEnc_cost v ch e he
-  have hf : cost v ≤ ((e ++ tail).length + 1) * (MAX_ARRAY_COUNT + 2) := by
-    simp only [List.length_append, MAX_ARRAY_COUNT]
-    have : 4 * e.length ≤ (e.length + tail.length + 1) * 65538 := by
-      calc 4 * e.length ≤ 65538 * e.length := by omega
-        _ ≤ 65538 * (e.length + tail.length + 1) := by apply Nat.mul_le_mul_left; omega
-        _ = (e.length + tail.length + 1) * 65538 := Nat.mul_comm _ _
-    omega
-  simp only [decode, srt v hw ch e he tail _ MAX_NESTING_DEPTH MAX_ARRAY_COUNT hf hn, bind, Except.bind,
-    pure, Except.pure]
+  have hf := fuel_enough v e tail hc
+  have := srt v hw ch e he tail (decodeFuel (e ++ tail).length) MAX_NESTING_DEPTH MAX_ARRAY_COUNT hf hn
+  unfold decode
+  rw [this]
+  rfl
 
 
 /-! ## non-vacuity, and the recorded exception -/
